@@ -20,14 +20,16 @@ VALS = {
     INT: ["0", "1", "7", "12", "49", "50", "51", "123", "-1", "-3", "007", "+5", "12a", "99999999999999999999", ""],
     HEX: ["0x0", "0x1", "0x1F", "0x3f", "0x40", "0x41", "1f", "0X2", "0x", "zz", "-0x1", "0x10"],
     FLOAT: ["0.5", "1.5", "5", "1e1", "1e3", "15.5", "25.5", "-0.0", "nan", "inf", "1,5", "3.25"],
-    STRING: ["a", "hello", 'q"t', "b\\c", "", "ab", " sp ", "# default:", "$(X)", "éß", "x=y", "CONFIG_A=y", "n", "y", "0", "0x1"],
+    # incl. characters str.splitlines() treats as line boundaries although a text file does not (\x0b \x0c \x1c-\x1e \x85 \u2028 \u2029)
+    STRING: ["a", "hello", 'q"t', "b\\c", "", "ab", " sp ", "# default:", "$(X)", "éß", "x=y", "CONFIG_A=y", "n", "y", "0", "0x1",
+             "p\x0cq", "r\x85s", "t\x1du", "v\u2029w", "tab\there"],
 }
 SANE = {
     BOOL: ["y", "n"],
     INT: ["0", "1", "7", "12", "49", "50", "123"],
     HEX: ["0x0", "0x1", "0x1F", "0x3f", "0x40", "0x10"],
     FLOAT: ["0.5", "1.5", "5.0", "15.5", "3.25"],
-    STRING: ["a", "hello", 'q"t', "b\\c", "", "ab", "n", "y", "\u00e9\u00df"],  # "n"/"y" collide with the bool encoding; non-ASCII: bytes != characters
+    STRING: ["a", "hello", 'q"t', "b\\c", "", "ab", "n", "y", "\u00e9\u00df", "l\u2028m"],  # "n"/"y" collide with the bool encoding; non-ASCII: bytes != characters; U+2028: a line boundary for str.splitlines() only
 }
 
 
